@@ -122,6 +122,10 @@ Proof.
   constructor; [apply IH; exact Hs'|]. rewrite Forall_forall in *. intros x Hx. apply Hf. apply in_or_app. left. exact Hx.
 Qed.
 
+(* no look at the store found a row whose content is not its event's (finding C09-F2) *)
+Definition no_bad (l : list act) : bool :=
+  forallb (fun a => match a with Check _ _ _ bad => is_nil bad | _ => true end) l.
+
 (* ---- the simulation ---- *)
 Record Robs (g : og) (s : st) : Prop := {
   r_lg : o_lg g = lg (sp s);
@@ -177,7 +181,7 @@ Lemma inv_invoke s o : Inv gf c s -> pc (sj s) = PIn o ->
   trig (lg (sp s)) o = true /\ last (g_inv (sg s)) (g_init (sg s)) < o /\
   (forall x, last (g_inv (sg s)) (g_init (sg s)) < x < o -> trig (lg (sp s)) x = false).
 Proof.
-  intros [HS HO _] Hpc. destruct (i_pin _ HS _ Hpc) as (_ & Hd & Hlt & Ht).
+  intros [HS HO _] Hpc. destruct (i_pin _ HS o ltac:(rewrite Hpc; reflexivity)) as (_ & Hd & Hlt & Ht).
   unfold InvO, pend in HO. rewrite Hpc, Hd in HO.
   set (F := filter (trig (lg (sp s))) (seqN (g_init (sg s) + 1) (N.to_nat (o - g_init (sg s))))) in *.
   assert (HsF : StronglySorted N.lt F) by (apply filter_sorted, seqN_sorted).
@@ -198,9 +202,11 @@ Proof.
 Qed.
 
 Lemma oracle_sim : forall l s g l' s', Inv gf c s -> Robs g s -> elaborate c s l = Some (l', s') ->
-  dom_ok (len (lg (sp s))) l = true -> oracle (c_nonbuf c) g l = true.
+  dom_ok (len (lg (sp s))) l = true -> (c_earlyrel c = true -> no_bad l = true) -> oracle (c_nonbuf c) g l = true.
 Proof.
-  induction l as [|a l IH]; intros s g l' s' HI HR H Hd; [reflexivity|]. cbn [elaborate] in H.
+  induction l as [|a l IH]; intros s g l' s' HI HR H Hd Hbad; [reflexivity|]. cbn [elaborate] in H.
+  assert (Hbad2 : c_earlyrel c = true -> no_bad l = true).
+  { intros X. specialize (Hbad X). cbn [no_bad forallb] in Hbad. apply andb_true_iff in Hbad. apply Hbad. }
   destruct (step c s a) as [s1|] eqn:Es; [|discriminate].
   destruct (run c s1 (settle_acts c fuel0 s1)) as [s2|] eqn:Er; [|discriminate].
   destruct (elaborate c s2 l) as [[l2 s3]|] eqn:Ee; [|discriminate]. clear H.
@@ -216,11 +222,15 @@ Proof.
     try (apply Step; constructor; cbn; congruence).
   - (* Check *)
     apply andb_true_iff. split; [|apply Step; constructor; cbn; congruence].
-    apply orb_true_iff. right. open_state s. cbn in Es. guards Es. bools. subst. cbn in *.
-    rewrite Rl. pose proof (inv_covered _ HI) as Hcov. cbn in Hcov. unfold covered in *.
-    rewrite forallb_forall in *. intros o Ho. specialize (Hcov o Ho).
-    destruct (trig L o); [cbn in * | reflexivity]. apply andb_true_iff in Hcov. destruct Hcov as [A B].
-    apply andb_true_iff. split; [|exact B]. apply mem_In. eapply ms_eqb_In; [eassumption|]. apply mem_In. exact A.
+    open_state s. cbn in Es. guards Es. bools. subst. cbn in *.
+    apply andb_true_iff. split.
+    + match goal with X : _ || is_nil _ = true |- _ => apply orb_true_iff in X; destruct X as [X|X]; [|exact X];
+        specialize (Hbad X); cbn [no_bad forallb] in Hbad; apply andb_true_iff in Hbad; apply Hbad end.
+    + apply orb_true_iff. right.
+      rewrite Rl. pose proof (inv_covered _ HI) as Hcov. cbn in Hcov. unfold covered in *.
+      rewrite forallb_forall in *. intros o Ho. specialize (Hcov o Ho).
+      destruct (trig L o); [cbn in * | reflexivity]. apply andb_true_iff in Hcov. destruct Hcov as [A B].
+      apply andb_true_iff. split; [|exact B]. apply mem_In. eapply ms_eqb_In; [eassumption|]. apply mem_In. exact A.
   - (* RInitOk *)
     apply andb_true_iff. split.
     + apply orb_true_iff. right. rewrite Rl, Re, Rm. pose proof (inv_covered _ HI) as Hcov.
@@ -280,31 +290,32 @@ Qed.
 (* The trace-level statement.  When the trace claims a quiescent end it must end with a look at the store. *)
 Theorem agrees_implies_satisfies_proved t :
   cfg_ok (cfg_of t) -> (t_nonbuf t = true -> c_viewlast (cfg_of t) = true) ->
-  (t_quiet t = true -> exists l0 p effs ms, t_acts t = l0 ++ [Check p effs ms]) ->
+  (t_quiet t = true -> exists l0 p effs ms bad, t_acts t = l0 ++ [Check p effs ms bad]) ->
+  (c_earlyrel (cfg_of t) = true -> no_bad (t_acts t) = true) ->
   agrees t = true -> dom_ok 0 (t_acts t) = true -> satisfies t = true.
 Proof.
-  intros Hc Hvl Hend Ha Hd. unfold agrees in Ha. set (c := cfg_of t) in *.
+  intros Hc Hvl Hend Hbad Ha Hd. unfold agrees in Ha. set (c := cfg_of t) in *.
   destruct (elaborate c init (t_acts t)) as [[l' sf]|] eqn:Ee; [|discriminate].
   assert (Hnb : c_nonbuf c = true -> t_nonbuf t = true) by (intros X; exact X).
   unfold satisfies. rewrite Hd. cbn [negb orb]. apply andb_true_iff. split.
   - change (t_nonbuf t) with (c_nonbuf c).
-    eapply (oracle_sim (t_nonbuf t) c Hc Hvl Hnb); [apply Inv_init | | exact Ee | exact Hd].
+    eapply (oracle_sim (t_nonbuf t) c Hc Hvl Hnb); [apply Inv_init | | exact Ee | exact Hd | exact Hbad].
     constructor; reflexivity.
   - unfold final_ok. destruct (t_quiet t) eqn:Eq; [cbn [negb orb] | reflexivity]. cbn [negb orb] in Ha.
-    destruct (Hend eq_refl) as (l0 & p & effs & ms & El). rewrite El in *. rewrite rev_app_distr. cbn [rev app].
+    destruct (Hend eq_refl) as (l0 & p & effs & ms & bad & El). rewrite El in *. rewrite rev_app_distr. cbn [rev app].
     rewrite elaborate_app in Ee.
     destruct (elaborate c init l0) as [[la s0]|] eqn:E0; [|discriminate].
-    cbn [elaborate] in Ee. destruct (step c s0 (Check p effs ms)) as [s1|] eqn:Es; [|discriminate].
+    cbn [elaborate] in Ee. destruct (step c s0 (Check p effs ms bad)) as [s1|] eqn:Es; [|discriminate].
     destruct (run c s1 (settle_acts c fuel0 s1)) as [s2|] eqn:Er; [|discriminate]. injection Ee as _ <-.
     (* the invariants at the final state *)
-    assert (Hd0 : dom_ok 0 l0 = true /\ dom_ok (len (lg (sp s0))) [Check p effs ms] = true) by (split; [|reflexivity];
+    assert (Hd0 : dom_ok 0 l0 = true /\ dom_ok (len (lg (sp s0))) [Check p effs ms bad] = true) by (split; [|reflexivity];
       clear - Hd; revert Hd; generalize 0; induction l0 as [|a l IH]; intros n H; [reflexivity|];
       destruct a; cbn in *; try (apply IH; exact H); apply andb_true_iff in H; apply andb_true_iff; split; [tauto | apply IH; tauto]).
     destruct Hd0 as [Hd0 _].
     assert (HI0 : Inv (t_nonbuf t) c s0).
     { eapply runG_inv; [exact Hc | apply Inv_init | apply (runG_gf (t_nonbuf t) c Hvl Hnb)].
       eapply elaborate_runG_proved; [exact E0 | exact Hd0]. }
-    destruct (block_inv (t_nonbuf t) c Hc Hvl Hnb s0 (Check p effs ms) _ _ HI0 eq_refl Es Er) as [_ HI2].
+    destruct (block_inv (t_nonbuf t) c Hc Hvl Hnb s0 (Check p effs ms bad) _ _ HI0 eq_refl Es Er) as [_ HI2].
     destruct (block_obs c _ _ _ _ Es Er) as (OL & OE & OM & _).
     pose proof (elaborate_lg c _ _ _ _ E0) as L0. cbn in L0.
     rewrite final_log_app. cbn [final_log flat_map]. rewrite app_nil_r. fold (final_log l0). rewrite <- L0, <- OL.
